@@ -1,4 +1,5 @@
 import Pearl.Model.Script
+import Pearl.Model.Worker
 /-
 Driver state around the L2 store: configuration, a lower bound of wall-clock time (sum of `wait`s),
 blob birth times (for the rotation debounce), open/closed.  Nondeterministic background events
@@ -14,7 +15,20 @@ structure DState where
   now : Nat := 0
   born : List (Nat × Nat) := []
   isOpen : Bool := false
+  /-- background-worker flags (`Pearl.WState` minus the store) -/
+  deferred : Bool := false
+  dumpRunning : Bool := false
+  fsyncRunning : Bool := false
 deriving Inhabited
+
+/-- run one message through the proved worker model (`processMsgFixed` = the loop as it is in /repo) -/
+def worker (d : DState) (t : OpType) (pred : Option BlobPred) : DState :=
+  let lim : Limits := { maxCount := d.maxData, maxSize := 1000000000000000 }
+  let w : WState := { store := d.store, alive := true, deferred := d.deferred,
+                      dumpRunning := d.dumpRunning, fsyncRunning := d.fsyncRunning }
+  let w' := processMsgFixed lim w (.op t pred)
+  { d with store := w'.store, deferred := w'.deferred, dumpRunning := w'.dumpRunning,
+           fsyncRunning := w'.fsyncRunning }
 
 def debounceSure : Nat := 250
 
@@ -42,7 +56,7 @@ def afterWrite (d : DState) (annotated : Bool) : DState × String :=
     let over := decide (a.count ≥ d.maxData)
     let age := d.now - bornOf d a.id
     if over && (decide (age ≥ debounceSure) || annotated) then
-      (noteBorn { d with store := d.store.apply .replaceActive }, "ok switched")
+      (noteBorn (worker d .tryUpdateActiveBlob none), "ok switched")
     else (d, "ok")
 
 def step (d : DState) (line : String) : DState × String :=
@@ -69,26 +83,33 @@ def step (d : DState) (line : String) : DState × String :=
       | ["restart"] | ["restart", "lazy"] =>
         let s := d.store.apply (.restart (toks.length == 2))
         ({ d with store := s, born := s.blobs.map (fun b => (b.id, d.now)) }, "ok")
+      | "dmgsweep" :: rest =>
+        -- index files are a disposable cache: every damaged copy answers like the original (C03);
+        -- the command ends with a reopen of the undamaged directory
+        let s := d.store.apply (.restart (rest.contains "lazy"))
+        ({ d with store := s, born := s.blobs.map (fun b => (b.id, d.now)) }, "sweep ok")
       | "w" :: _ =>
         let (s, o) := Script.step d.store line'
         if o == "ok" then afterWrite (noteBorn { d with store := s }) annotated
         else ({ d with store := s }, o)
-      | ["close_active_bg"] => ({ d with store := d.store.apply .closeActive }, "ok")
-      | ["create_active_bg"] => (noteBorn { d with store := d.store.apply .createActive }, "ok")
-      | ["restore_active_bg"] => ({ d with store := d.store.apply .restoreActive }, "ok")
+      | ["close_active_bg"] => (worker (worker d .closeActiveBlob none) .tryDumpBlobIndexes none, "ok")
+      | ["create_active_bg"] => (noteBorn (worker d .createActiveBlob none), "ok")
+      | ["restore_active_bg"] => (worker d .restoreActiveBlob none, "ok")
       | ["force", p] =>
-        let cnt := d.store.active.map Blob.count
-        let fire := match p with
-          | "always" => true
-          | "never" => false
-          | "nonempty" => match cnt with | some c => decide (c > 0) | none => false
-          | "ge3" => match cnt with | some c => decide (c ≥ 3) | none => false
-          | _ => false
-        if fire then (noteBorn { d with store := d.store.apply .replaceActive }, "ok") else (d, "ok")
-      | ["free"] => (d, "ok")
+        let pred : Option BlobPred := match p with
+          | "always" => some (fun _ => true)
+          | "never" => some (fun _ => false)
+          | "nonempty" => some (fun st => match st with | some x => decide (x.recordsCount > 0) | none => false)
+          | "ge3" => some (fun st => match st with | some x => decide (x.recordsCount ≥ 3) | none => false)
+          | _ => some (fun _ => false)
+        (noteBorn (worker (worker d .forceUpdateActiveBlob pred) .tryDumpBlobIndexes none), "ok")
+      | ["free"] => (worker d .tryDumpBlobIndexes none, "ok")
       | ["offload", _, _] => (d, "ok")
       | ["fsync"] => (d, "ok")
       | ["alive"] => (d, "alive")
+      | ["settle"] =>
+        -- every requested dump has completed (`dumpDone`)
+        ({ d with store := d.store.apply .settle, dumpRunning := false, deferred := false }, "ok")
       | _ =>
         let (s, o) := Script.step d.store line'
         (noteBorn { d with store := s }, o)
